@@ -151,8 +151,14 @@ def search(ctx):
                 # the public calculations need a `.center`, which only `Spheres` provides: generic/nested
                 # `Scatterers` are covered by the component-list correspondence
                 nested = False
+                if i % 6 == 3 and m >= 2:
+                    # like particles (same index and radius) at different heights and positions: nothing cached for one
+                    # member may leak into the next
+                    n0, r0 = float(rng.uniform(1.45, 1.65)), float(rng.uniform(0.3, 0.7))
+                    members = [Sphere(n=n0, r=r0, center=(float(rng.uniform(0, 3)), float(rng.uniform(0, 3)), float(rng.uniform(3, 12)))) for _ in range(m)]
+                    layered = False
                 coll = Spheres(members, warn=False)
-                name, mk = ("Mie", lambda: Mie()) if rng.random() < 0.7 or layered else ("MieLens", lambda: MieLens(lens_angle=0.8))
+                name, mk = ("Mie", lambda: Mie()) if (rng.random() < 0.7 and i % 6 != 3) or layered else ("MieLens", lambda: MieLens(lens_angle=0.8))
                 det = T.rand_grid(rng, 5) if (name == "MieLens" or rng.random() < 0.5) else T.rand_points(rng)
                 pol = T.rand_pol(rng)
                 info = dict(kind="superposition", theory=name, members=[repr(s) for s in members], nested=bool(nested), pol=list(pol))
